@@ -8,8 +8,14 @@ use std::sync::atomic::{AtomicUsize, Ordering};
 use std::sync::{mpsc, Arc, Mutex};
 use std::time::Duration;
 
-/// Real-time limit per case.
-const CHILD_LIMIT: Duration = Duration::from_secs(60);
+/// Real-time limit per case (seconds); `HARNESS_CHILD_LIMIT_SECS` overrides it.
+fn child_limit() -> Duration {
+    let secs = std::env::var("HARNESS_CHILD_LIMIT_SECS")
+        .ok()
+        .and_then(|v| v.parse::<u64>().ok())
+        .unwrap_or(60);
+    Duration::from_secs(secs)
+}
 
 fn failure_result(id: &str, description: &str) -> String {
     format!("CASE {}\n!PANIC {}\nEND\n", id, hexs(description))
@@ -53,7 +59,8 @@ fn run_child(exe: &std::path::Path, case: &Case) -> String {
         let _ = tx.send(buf);
     });
 
-    let output = match rx.recv_timeout(CHILD_LIMIT) {
+    let limit = child_limit();
+    let output = match rx.recv_timeout(limit) {
         Ok(buf) => buf,
         Err(_) => {
             let _ = child.kill();
@@ -61,7 +68,7 @@ fn run_child(exe: &std::path::Path, case: &Case) -> String {
             let _ = reader.join();
             return failure_result(
                 &case.id,
-                &format!("child timed out after {} s", CHILD_LIMIT.as_secs()),
+                &format!("child timed out after {} s", limit.as_secs()),
             );
         }
     };
